@@ -753,10 +753,10 @@ Definition done_matches {A} (r : fsres A) (o : outcome) : bool :=
   | _, _ => false
   end.
 
-(** [spec_ok X fs ep o calls out]: the observation (calls the backend received,
-    what the client returned) is what the property demands, for a backend whose
-    answers are [fs].  Inputs outside the stated domain are not constrained. *)
-Definition spec_ok (X : ext) (fs : filesystem) (ep : string) (o : op) (calls : list fscall) (out : outcome) : bool :=
+(** [spec_exact]: the strict reading — the backend sees exactly the calls the
+    present code makes and nothing else.  Kept because it is what the model
+    produces ([model_meets_spec_exact]); the property itself is [spec_ok] below. *)
+Definition spec_exact (X : ext) (fs : filesystem) (ep : string) (o : op) (calls : list fscall) (out : outcome) : bool :=
   match o with
   | OpStat n =>
     let p := spec_target ep n in
@@ -809,6 +809,100 @@ Definition spec_ok (X : ext) (fs : filesystem) (ep : string) (o : op) (calls : l
     calls_eqb calls [CMove p q no] &&
     match fs_move fs p q no with FErr e => if wf_code e then out_is_err out else true | r => done_matches r out end
   end.
+
+(** * The specification
+
+    The property is about names, metadata and content agreeing between client and
+    backend, and about the mutating calls reaching the backend addressed exactly.  It
+    does not fix which read-only calls (Stat, ReadDir, Open — calls that cannot change
+    the backend) a request makes: any number of them may appear anywhere among the
+    calls, provided each names a resource the request refers to (its own resource, or
+    the destination of a Copy / Move), decoded exactly like the other arguments.  The
+    mutating calls (Create, RemoveAll, Mkdir, Copy, Move) must be exactly the expected
+    ones, in order, with exactly the expected arguments. *)
+Definition is_mutating (c : fscall) : bool :=
+  match c with CStat _ | CReadDir _ _ | COpen _ => false | _ => true end.
+Definition read_name (c : fscall) : string :=
+  match c with CStat n | CReadDir n _ | COpen n => n | _ => "" end.
+Fixpoint name_in (s : string) (l : list string) : bool :=
+  match l with [] => false | x :: r => String.eqb x s || name_in s r end.
+
+Definition calls_ok (names : list string) (expected : list fscall) (calls : list fscall) : bool :=
+  calls_eqb (filter is_mutating calls) expected &&
+  forallb (fun c => is_mutating c || name_in (read_name c) names) calls.
+
+(** the resources a call refers to, and the mutating calls it must make *)
+Definition referred_names (ep : string) (o : op) : list string :=
+  match o with
+  | OpCopy n d _ _ | OpMove n d _ => [spec_target ep n; spec_target ep d]
+  | OpStat n | OpReadDir n _ | OpOpen n | OpCreate n _ | OpRemoveAll n | OpMkdir n => [spec_target ep n]
+  end.
+Definition expected_mutations (ep : string) (o : op) : list fscall :=
+  match o with
+  | OpStat _ | OpReadDir _ _ | OpOpen _ => []
+  | OpCreate n chunks => [CCreate (spec_target ep n) (String.concat "" chunks) "" ""]
+  | OpRemoveAll n => [CRemoveAll (spec_target ep n) "" ""]
+  | OpMkdir n => [CMkdir (spec_target ep n)]
+  | OpCopy n d nr no => [CCopy (spec_target ep n) (spec_target ep d) nr no]
+  | OpMove n d no => [CMove (spec_target ep n) (spec_target ep d) no]
+  end.
+
+(** what the client returns, given the backend's answers (no constraint on calls) *)
+Definition outcome_ok (X : ext) (fs : filesystem) (ep : string) (o : op) (out : outcome) : bool :=
+  match o with
+  | OpStat n =>
+    let p := spec_target ep n in
+    match fs_stat fs p with
+    | FOk fi => if wf_info X fi then outcome_eqb out (OInfo (view fi)) else true
+    | FErr e => if wf_code e then out_is_err out else true
+    end
+  | OpReadDir n r =>
+    let p := spec_target ep n in
+    match fs_stat fs p with
+    | FOk fi =>
+      if i_dir fi then
+        match fs_readdir fs p r with
+        | FOk l => if forallb (wf_info X) l then outcome_eqb out (OList (map view l)) else true
+        | FErr e => if wf_code e then out_is_err out else true
+        end
+      else if wf_info X fi then outcome_eqb out (OList [view fi]) else true
+    | FErr e => if wf_code e then out_is_err out else true
+    end
+  | OpOpen n =>
+    let p := spec_target ep n in
+    match fs_stat fs p with
+    | FOk fi =>
+      if i_dir fi then out_is_err out
+      else match fs_open fs p with
+           | FOk b => if Z.eqb (i_size fi) (Z.of_N (strlen b)) && header_safe (i_mime fi) then outcome_eqb out (OBytes b) else true
+           | FErr e => if wf_code e then out_is_err out else true
+           end
+    | FErr e => if wf_code e then out_is_err out else true
+    end
+  | OpCreate n chunks =>
+    let p := spec_target ep n in
+    let body := String.concat "" chunks in
+    match fs_create fs p body with FErr e => if wf_code e then out_is_err out else true | r => done_matches r out end
+  | OpRemoveAll n =>
+    let p := spec_target ep n in
+    match fs_remove_all fs p with FErr e => if wf_code e then out_is_err out else true | r => done_matches r out end
+  | OpMkdir n =>
+    let p := spec_target ep n in
+    match fs_mkdir fs p with FErr e => if wf_code e then out_is_err out else true | r => done_matches r out end
+  | OpCopy n d nr no =>
+    let p := spec_target ep n in let q := spec_target ep d in
+    match fs_copy fs p q nr no with FErr e => if wf_code e then out_is_err out else true | r => done_matches r out end
+  | OpMove n d no =>
+    let p := spec_target ep n in let q := spec_target ep d in
+    match fs_move fs p q no with FErr e => if wf_code e then out_is_err out else true | r => done_matches r out end
+  end.
+
+
+(** [spec_ok X fs ep o calls out]: the observation (calls the backend received, what
+    the client returned) is what the property demands, for a backend whose answers
+    are [fs].  Inputs outside the stated domain are not constrained. *)
+Definition spec_ok (X : ext) (fs : filesystem) (ep : string) (o : op) (calls : list fscall) (out : outcome) : bool :=
+  calls_ok (referred_names ep o) (expected_mutations ep o) calls && outcome_ok X fs ep o out.
 
 (** * Verdicts of the correspondence check *)
 Definition model_agrees (X : ext) (fs : filesystem) (ep : string) (o : op) (calls : list fscall) (out : outcome) : bool :=
